@@ -84,6 +84,9 @@ func checkC02(c *Ctx) {
 			if body := loopBodyHead(iv.Ind.Phi.Block()); body == nil || ci.Block() != body {
 				okApp, d = false, "a hand index entry can be skipped or appended conditionally"
 			}
+			if bad := notStartingEmpty(p, ci); bad != "" {
+				okApp, d = false, "the hand's player list does not start empty ("+bad+"): every entry is shifted"
+			}
 		}
 		c.Check(okApp && nApp == 1, "R1", "one-setting-per-entry", p.Pos(start.Pos()), "one append per hand-index entry, in order", fmt.Sprintf("hand player list construction: %d append site(s); %s", nApp, d))
 		// the stored slice is that slice
@@ -547,7 +550,11 @@ func checkLeaveRemap(c *Ctx) {
 				ok = true
 			}
 		}
-		c.Check(ok, "R4", "leave-remap:hand-index-source", p.InstrPos(ci), "new hand index = new position of the same player id", "after a leave the hand index list is rebuilt from "+es.String()+", not from the id → new position map")
+		if bad := notStartingEmpty(p, ci); ok && bad != "" {
+			ok = false
+			es = p.Sym(ci.Common().Args[0]).Strip()
+		}
+		c.Check(ok, "R4", "leave-remap:hand-index-source", p.InstrPos(ci), "new hand index = new position of the same player id, list starts empty", "after a leave the hand index list is rebuilt from "+es.String()+", not from the id → new position map (or does not start empty)")
 		// … looked up by the id of the player the *old* hand entry denotes, for every old entry in order
 		if ok {
 			lk := es.Args[0].Strip().V.(*ssa.Lookup)
@@ -709,4 +716,18 @@ func sliceLiteralStrings(v ssa.Value) []string {
 		}
 	}
 	return out
+}
+
+// notStartingEmpty: "" when the list an append extends starts from an empty list (through
+// phis, earlier appends and locals captured by closures), else a description of its origin.
+func notStartingEmpty(p *Prog, ci ssa.CallInstruction) string {
+	for _, o := range appendOrigins(ci.Common().Args[0]) {
+		if k, isK := o.(*ssa.Const); isK && k.IsNil() {
+			continue
+		}
+		if !isEmptySlice(p.Sym(o)) {
+			return p.Sym(o).String()
+		}
+	}
+	return ""
 }
